@@ -224,6 +224,76 @@ def unit_plain_enum(nmembers):
     return Exploration(f"_cast_plain_enum[{nmembers}]", body).run()
 
 
+def unit_plain_enum_consts(nmembers):
+    """Members whose value is a Const with an explicit shape count with THAT shape (not with the minimal shape of
+    their integer value): the result is the narrowest shape containing every member's constant shape."""
+    U, A = _mods()
+
+    def body(path):
+        ws = [path.var(f"w{i}", 0, 64) for i in range(nmembers)]
+        sg = [bool(path.var(f"s{i}", 0, 1) == 1) for i in range(nmembers)]
+        members = []
+        for i in range(nmembers):
+            if sg[i]:
+                path.assume(ws[i] >= 1)
+            shp = object.__new__(A.Shape)
+            shp._width, shp._signed = ws[i], sg[i]
+            c = object.__new__(A.Const)
+            c._shape, c._value, c.src_loc = shp, 0, None
+            members.append(types.SimpleNamespace(value=c))
+        with shimmed(U, A):
+            sh = A.Shape._cast_plain_enum(members)
+        w, s = sh.width, sh.signed
+        path.prove(f"enum-consts[{nmembers}]::signed-iff-some-member-signed", bool(s) == any(sg))
+        needs = [(ws[i] if sg[i] else ws[i] + 1) if s else ws[i] for i in range(nmembers)]
+        path.prove(f"enum-consts[{nmembers}]::contains-every-member-shape", And(*[w >= nd for nd in needs]))
+        path.prove(f"enum-consts[{nmembers}]::narrowest", Or(*[w == nd for nd in needs]))
+    return Exploration(f"_cast_plain_enum-consts[{nmembers}]", body).run()
+
+
+def unit_plain_enum_real():
+    """Closed family: real enum.Enum classes whose members mix ints, shaped constants, concatenations, slices and
+    members of other enumerations, through the public Shape.cast / Signal / Const entry points."""
+    import enum as py_enum, itertools
+    from amaranth.hdl import Const, Shape, Signal, Cat, Value, signed, unsigned
+
+    class Other(py_enum.IntEnum):
+        BIG = 100
+    pool = [
+        (0, (1, False)), (5, (3, False)), (-3, (3, True)),
+        (Const(1, 8), (8, False)), (Const(1, signed(4)), (4, True)), (Const(-1, signed(6)), (6, True)),
+        (Cat(Const(1, 2), Const(0, 2)), (4, False)), (Const(5, 8)[0:5], (5, False)), (Other.BIG, (7, False)),
+    ]
+    bad, n = None, 0
+    for k in (1, 2, 3):
+        for combo in itertools.combinations(range(len(pool)), k):
+            vals = [i for i in combo if isinstance(pool[i][0], Value)]
+            if len(vals) > 1:
+                continue             # CPython's enum compares an unhashable member with the earlier ones: one Value member at most, first
+            combo = vals + [i for i in combo if i not in vals]
+            n += 1
+            E = py_enum.Enum("E", {f"M{i}": pool[i][0] for i in combo})
+            shapes = [pool[i][1] for i in combo]
+            sgn = any(s for _, s in shapes)
+            wid = max((w if s or not sgn else w + 1) for w, s in shapes)
+            try:
+                got = Shape.cast(E)
+                sig = Signal(E).shape()
+                okc = True
+                if not sgn and wid >= 8:
+                    okc = Const(200, E).value == 200
+            except Exception as e:
+                got, sig, okc = repr(e), None, False
+            if bad is None and not (got == Shape(wid, sgn) and sig == Shape(wid, sgn) and okc):
+                bad = {"members": [repr(pool[i][0]) for i in combo], "Shape.cast(E)": repr(got), "Signal(E).shape()": repr(sig),
+                       "expected": repr(Shape(wid, sgn)), "how": "enum.Enum('E', members); Shape.cast(E)"}
+    ok = bad is None
+    return {"task": "plain-enum-real", "paths": n, "solver_s": 0.0, "obligations": [
+        {"name": "plain-enum-real::member-constant-shapes-unified", "kind": "bounded", "status": "proved" if ok else "refuted",
+         "backend": "cpython", "time_s": 0.0, **({} if ok else {"failing_input": bad})}],
+        "bounded": [{"name": "enum.Enum classes over a pool of 9 member kinds", "bound": "1..3 members", "cases": n, "failures": 0 if ok else 1}]}
+
+
 def unit_const_norm(Wb):
     """Const(v, Shape(w, s)).value is the unique value in the shape's range congruent to v mod 2^w."""
     U, A = _mods()
@@ -456,6 +526,8 @@ def tasks(tier):
           ("init_value", Wb), ("memory_init",)]
     ts += [("cast_range", st) for st in STEPS]
     ts += [("plain_enum", n) for n in ((1, 2) if tier == "quick" else (1, 2, 3))]
+    ts += [("plain_enum_consts", n) for n in ((1, 2) if tier == "quick" else (1, 2, 3))]
+    ts += [("plain-enum-real",)]
     ts += [("boundary-sweep", 300 if tier == "quick" else 1200)]
     return ts
 
@@ -479,6 +551,10 @@ def run_task(task):
     name = repr(task).replace(" ", "")
     if k == "boundary-sweep":
         return unit_boundary_sweep(task[1])
+    if k == "plain-enum-real":
+        return unit_plain_enum_real()
+    if k == "plain_enum_consts":
+        return _as_result(name, unit_plain_enum_consts(task[1]), True)
     if k == "ceil_log2":
         return _as_result(name, unit_ceil_log2(), True)
     if k == "bits_for":
@@ -596,6 +672,22 @@ def concrete_search(task):
                 need = max(need, cw + (1 if (sgn and not cs) else 0))
             if (sh.width, sh.signed) != (need, sgn):
                 return {"function": "Shape.cast(Enum)", "members": combo, "observed": repr(sh), "expected": (need, sgn)}
+    if k == "plain_enum_consts":
+        # real Const members with explicit shapes (one Value member per enum.Enum at most -- CPython compares an
+        # unhashable member with the earlier ones -- so the others are ints, which count with their minimal shape)
+        for w in list(range(0, 12)) + [16, 32, 64]:
+            for sg in (False, True):
+                if sg and w == 0:
+                    continue
+                for others in ((), (1,), (-2,), (7, -8))[: task[1] + 1]:
+                    E = pyenum.Enum("E", {"C": A.Const(0, A.Shape(w, sg)), **{f"M{i}": v for i, v in enumerate(others)}})
+                    sh = A.Shape.cast(E)
+                    shapes = [(w, sg)] + [_brute_min_shape([v]) for v in others]
+                    sgn = any(s_ for _w, s_ in shapes)
+                    need = max((w_ if (s_ or not sgn) else w_ + 1) for w_, s_ in shapes)
+                    if (sh.width, sh.signed) != (need, sgn):
+                        return {"function": "Shape.cast(Enum)", "members": [f"Const(0, {A.Shape(w, sg)!r})", *others], "observed": repr(sh),
+                                "expected": repr(A.Shape(need, sgn)), "how": "enum.Enum('E', members); Shape.cast(E)"}
     if k in ("const_norm", "init_value", "memory_init", "const_cast", "shape_init"):
         for w in range(0, 7):
             for s in (False, True):
